@@ -177,6 +177,48 @@ def check_case(ctx, cs):
         raise core.MachineryError("unknown op " + op)
 
 
+def check_setters(ctx):
+    """the rule of knotvector.check is enforced by every per-direction setter of surfaces and volumes (sizes and degrees all
+    different, so a check against another direction's count or degree shows)"""
+    from geomdl import BSpline, knotvector
+    ctx.full = {"setters": True}
+    for kind, degs, sizes in (("surface", (1, 2), (3, 5)), ("surface", (3, 2), (5, 4)), ("volume", (1, 2, 3), (3, 4, 6)), ("volume", (3, 1, 2), (6, 3, 4))):
+        pd = len(degs)
+        for d in range(pd):
+            nm = "uvw"[d]
+
+            def fresh():
+                o = BSpline.Surface() if pd == 2 else BSpline.Volume()
+                for e in range(pd):
+                    setattr(o, "degree_" + "uvw"[e], degs[e])
+                n = 1
+                for z in sizes:
+                    n *= z
+                o.set_ctrlpts([[float(i), float(i % 3), float(i % 5)] for i in range(n)], *sizes)
+                return o
+            good = knotvector.generate(degs[d], sizes[d])
+            cands = {"ok": good, "short": good[1:], "long": good + [good[-1]], "descent_last": good[:-1] + [good[-2] - 0.25]}
+            for e in range(pd):
+                if e != d and (degs[e], sizes[e]) != (degs[d], sizes[d]):
+                    cands["valid_for_" + "uvw"[e]] = knotvector.generate(degs[e], sizes[e])
+            for label, kv in cands.items():
+                small = {"kind": kind, "degrees": list(degs), "sizes": list(sizes), "direction": nm, "candidate": label}
+                tg = ["setter", kind, "dir=" + nm, label]
+                ctx.count(("setter", kind, degs, sizes, nm, label), sample=small)
+                want = label == "ok" or (label.startswith("valid_for") and len(kv) == len(good))
+                try:
+                    o = fresh()
+                    try:
+                        setattr(o, "knotvector_" + nm, list(kv))
+                        accepted = True
+                    except ValueError:
+                        accepted = False
+                    if accepted != want:
+                        ctx.violate("%s.knotvector_%s.setter" % (kind.capitalize(), nm), tg, small, {"expected_accepted": want, "accepted": accepted})
+                except Exception as e:
+                    ctx.violate("%s.knotvector_%s.setter" % (kind.capitalize(), nm), tg + ["raises"], small, {"exception": repr(e)[:200]})
+
+
 THEOREMS = ["T_SpanUnique", "T_SpanAlgos (FindSpanLinear = FindSpanBinary = SpanDef)", "T_BasisFuns (A2.2 = Cox-de Boor)",
             "T_NonNeg", "T_Unity", "T_Local", "T_CoxDeBoor", "T_AllDegrees", "T_DerZero", "T_Generate", "T_Normalize", "T_Check"]
 
@@ -194,6 +236,7 @@ def run(ctx):
     for need in ("eval", "span", "spans", "generate", "normalize", "check"):
         if not ops.get(need):
             raise core.MachineryError("vacuous model: action %s never taken" % need)
+    check_setters(ctx)
     ctx.traces = len(res.cases)
     ctx.extra["transitions_by_action"] = ops
     ctx.rule = ("TLC enumerates (degree, knot vector, parameter) on the lattice of MC_C03_%s.cfg; one case per transition; "
@@ -205,4 +248,6 @@ def run(ctx):
 
 
 def replay(ctx, v):
+    if "setters" in v["full"]:
+        return check_setters(ctx)
     check_case(ctx, v["full"])
